@@ -680,6 +680,22 @@ func (ex *Exec) contractCall(key string, spec *FuncSpec, callee *ssa.Function, t
 	// havoc modifies
 	post := pre.clone()
 	ex.curState = post
+	if spec.CallLog {
+		// register the log components the callee's postcondition mentions, so that they are havocked below
+		saved := ex.vc.scratch
+		ex.vc.scratch = true
+		tev := ex.newEval(post, pre)
+		tev.ts, tev.fn, tev.pkg = ts, callee, ev.pkg
+		for k, v := range ev.vars {
+			tev.vars[k] = v
+		}
+		nerr := len(ex.vc.errs)
+		for _, e := range spec.Ensures {
+			tev.evalBool(e.Expr)
+		}
+		ex.vc.errs = ex.vc.errs[:nerr]
+		ex.vc.scratch = saved
+	}
 	ex.havocModifies(spec, ev, pre, post, callee, ts)
 	// results
 	var res Val
@@ -711,6 +727,16 @@ func (ex *Exec) contractCall(key string, spec *FuncSpec, callee *ssa.Function, t
 		res = tup[0]
 	} else if rs.Len() > 1 {
 		res = Val{Tup: tup}
+	}
+	// ghost variables of the callee: their final values are existentially chosen witnesses. A ghost variable of
+	// the caller with the same name receives the callee's value (ghost result passing by name).
+	for _, g := range spec.Ghosts {
+		vt := pev.resolveType(g.Type)
+		n := ex.vc.fresh(ex.pfx+"g_"+sanitize(callee.Name())+"_"+g.Name, ex.vc.vtSort(vt))
+		pev.vars[g.Name] = TV{T: n, Ty: vt}
+		if cg, ok := ex.vc.ghostSort[g.Name]; ok && ex.vc.vtSort(cg) == ex.vc.vtSort(vt) {
+			ex.set(post, "G:"+g.Name, ex.vc.vtSort(cg), n)
+		}
 	}
 	for _, e := range spec.Ensures {
 		t := pev.evalBool(e.Expr)
@@ -770,6 +796,17 @@ func (ex *Exec) havocModifies(spec *FuncSpec, ev *Eval, pre, post *State, callee
 				}
 			}
 		}
+	}
+	// a callee in call-log mode extends the ghost call log
+	if spec.CallLog {
+		for _, key := range sortedKeys(ex.vc.compKeys()) {
+			if strings.HasPrefix(key, "LOG") {
+				srt := ex.vc.compSort[key]
+				ex.set(post, key, srt, ex.vc.fresh("hv_"+key, srt))
+			}
+		}
+		ex.set(post, "LOGN", "Int", ex.vc.fresh("hv_LOGN", "Int"))
+		ex.set(post, "LOGF", "(Array Int Int)", ex.vc.fresh("hv_LOGF", "(Array Int Int)"))
 	}
 	// allocation may always grow in a callee (fresh results)
 	_ = allocHavoc
